@@ -3271,6 +3271,12 @@ class SSHConnection(SSHPacketHandler, asyncio.Protocol):
             _, peer = \
                 await self._loop.create_unix_connection(SSHForwarder, dest_path)
 
+            if not self._transport:
+                # The SSH connection was lost while the destination was
+                # being connected, so nothing will ever use this socket
+                cast(SSHForwarder, peer).close()
+                raise OSError('SSH connection closed')
+
             self.logger.info('  Forwarding UNIX connection to %s', dest_path)
         except OSError as exc:
             raise ChannelOpenError(OPEN_CONNECT_FAILED, str(exc)) from None
@@ -7348,6 +7354,12 @@ class SSHServerConnection(SSHConnection):
             cast(SSHTCPSessionFactory[bytes], SSHForwarder),
             dest_host, dest_port)
 
+        if not self._transport:
+            # This connection was lost while the tunneled connection was
+            # being opened, so nothing will ever use that channel
+            cast(SSHForwarder, peer).close()
+            raise ChannelOpenError(OPEN_CONNECT_FAILED, 'SSH connection closed')
+
         self.logger.info('  Forwarding TCP connection to %s via SSH tunnel',
                          (dest_host, dest_port))
 
@@ -7360,6 +7372,12 @@ class SSHServerConnection(SSHConnection):
 
         _, peer = await conn.create_unix_connection(
             cast(SSHUNIXSessionFactory[bytes], SSHForwarder), dest_path)
+
+        if not self._transport:
+            # This connection was lost while the tunneled connection was
+            # being opened, so nothing will ever use that channel
+            cast(SSHForwarder, peer).close()
+            raise ChannelOpenError(OPEN_CONNECT_FAILED, 'SSH connection closed')
 
         self.logger.info('  Forwarding UNIX connection to %s via SSH tunnel',
                          dest_path)
